@@ -275,7 +275,8 @@ def _unroll_block(stmts, lits, once=frozenset()):
     lits = dict(lits)
     for st in stmts:
         if isinstance(st, ast.For):
-            seq = _literal_seq(st.iter) or (lits.get(st.iter.id) if isinstance(st.iter, ast.Name) else None)
+            seq = _literal_seq(st.iter) or (lits.get(st.iter.id) if isinstance(st.iter, ast.Name) else
+                                            lits.get(f"{st.iter.value.id}.{st.iter.attr}") if isinstance(st.iter, ast.Attribute) and isinstance(st.iter.value, ast.Name) else None)
             if seq is not None:
                 body_st = _stored(st.body)
                 free = set().union(*[_loaded(e) for e in seq.elts]) if seq.elts else set()
@@ -344,14 +345,63 @@ def module_tables(mod: ast.Module) -> dict:
             and not (set().union(*[_loaded(e) for e in v.elts]) & set(cand))}
 
 
+def class_tables(cls: ast.ClassDef, mod: ast.Module) -> dict:
+    """'self.NAME' / 'cls.NAME' / '<Class>.NAME' -> literal tuple/list for the class-level constants of `cls`: bound exactly once
+    in the class body, elements pure and not naming other class-level names, and NAME assigned / deleted / mutated as an attribute
+    of nothing anywhere in the module (`x.NAME = ..`, `x.NAME[i] = ..`, `x.NAME.append(..)`, setattr) nor bound in the body of
+    another class of the module (an override).  A loop `for a, b in self.NAME` in a method is then as static as one over a local
+    literal (unroll_static_loops)."""
+    cand, count = {}, {}
+    for st in cls.body:
+        for n in ast.walk(st) if not isinstance(st, (ast.FunctionDef, ast.AsyncFunctionDef, ast.ClassDef)) else []:
+            if isinstance(n, ast.Name) and isinstance(n.ctx, (ast.Store, ast.Del)):
+                count[n.id] = count.get(n.id, 0) + 1
+        if isinstance(st, (ast.FunctionDef, ast.AsyncFunctionDef, ast.ClassDef)):
+            count[st.name] = count.get(st.name, 0) + 1
+        tgt = st.targets[0] if isinstance(st, ast.Assign) and len(st.targets) == 1 else st.target if isinstance(st, ast.AnnAssign) and st.value is not None else None
+        if isinstance(tgt, ast.Name):
+            seq = _literal_seq(st.value)
+            if seq is not None and all(_pure(e) for e in seq.elts):
+                cand[tgt.id] = seq
+    cand = {k: v for k, v in cand.items() if count.get(k, 0) == 1 and not (set().union(*[_loaded(e) for e in v.elts]) & set(count))}
+    if not cand:
+        return {}
+    for n in ast.walk(mod):
+        if isinstance(n, ast.ClassDef) and n is not cls:
+            for st in n.body:
+                for t in (st.targets if isinstance(st, ast.Assign) else [st.target] if isinstance(st, (ast.AnnAssign, ast.AugAssign)) else []):
+                    if isinstance(t, ast.Name):
+                        cand.pop(t.id, None)
+        elif isinstance(n, ast.Attribute) and isinstance(n.ctx, (ast.Store, ast.Del)):
+            cand.pop(n.attr, None)
+        elif isinstance(n, ast.Call) and isinstance(n.func, ast.Attribute) and isinstance(n.func.value, ast.Attribute) and n.func.attr in MUTATORS:
+            cand.pop(n.func.value.attr, None)
+        elif isinstance(n, (ast.Assign, ast.AugAssign, ast.Delete)):
+            for t in (n.targets if isinstance(n, (ast.Assign, ast.Delete)) else [n.target]):
+                while isinstance(t, ast.Subscript):
+                    t = t.value
+                    if isinstance(t, ast.Attribute):
+                        cand.pop(t.attr, None)
+        elif isinstance(n, ast.Call) and isinstance(n.func, ast.Name) and n.func.id in ("setattr", "delattr") and len(n.args) >= 2:
+            if isinstance(n.args[1], ast.Constant):
+                cand.pop(n.args[1].value, None)
+            else:
+                return {}
+    return {f"{recv}.{k}": v for k, v in cand.items() for recv in ("self", "cls", cls.name)}
+
+
 def unroll_static_loops(func, tables: dict | None = None):
     lits = {}
     if tables:
-        # a module-level table is visible unless the function binds the name itself (parameter, local, nested def)
+        # a module-level table is visible unless the function binds the name itself (parameter, local, nested def); a class-level
+        # one ('self.NAME') unless the function re-binds the receiver or has it as a parameter other than the first
         a = func.args
-        own = {p.arg for p in a.posonlyargs + a.args + a.kwonlyargs} | ({a.vararg.arg} if a.vararg else set()) | ({a.kwarg.arg} if a.kwarg else set()) \
+        params = [p.arg for p in a.posonlyargs + a.args + a.kwonlyargs]
+        own = set(params) | ({a.vararg.arg} if a.vararg else set()) | ({a.kwarg.arg} if a.kwarg else set()) \
             | _stored(func.body)
-        lits = {k: v for k, v in tables.items() if k not in own and not (set().union(*[_loaded(e) for e in v.elts]) & own)}
+        hidden = (own - set(params[:1])) | _rebound(func.body)
+        lits = {k: v for k, v in tables.items() if (k.split(".")[0] not in hidden if "." in k else k not in own)
+                and not (set().union(*[_loaded(e) for e in v.elts]) & own)}
     reads = {}
     for n in ast.walk(func):
         if isinstance(n, ast.Name) and isinstance(n.ctx, ast.Load):
